@@ -67,7 +67,7 @@ def decay_regime(e):
         for p in e["products"]:
             a0, T = to_decimal(p["A0"]), to_decimal(p["Thalf"])
             x = Decimal("0.6931471805599453") / T * Decimal(repr(To))
-            if a0 > target * Decimal("1e-4") and (x > Decimal("709.7") or a0 * (-x).exp() < Decimal("2.2250738585072014e-308")):
+            if a0 > target * Decimal("1e-9") and (x > Decimal("709.7") or a0 * (-x).exp() < Decimal("2.2250738585072014e-308")):
                 return "short-lived-product-lost-before-first-rest-time"
     except Exception:
         pass
